@@ -259,7 +259,7 @@ func c01EvalD(fn *ssa.Function, env c01Env, callDepth int) (rets [][]c01Val, ok 
 	if fn.Signature.Recv() != nil && len(fn.Params) > 0 {
 		recv = fn.Params[0]
 	}
-	budget := 400
+	budget := 6000
 	ok = true
 	isRecvBase := func(x ssa.Value) bool {
 		if recv == nil {
@@ -275,11 +275,18 @@ func c01EvalD(fn *ssa.Function, env c01Env, callDepth int) (rets [][]c01Val, ok 
 		return false
 	}
 	tuples := map[ssa.Value][]c01Val{}
+	// small constant tables: local array / slice literals and package-level slice literals
+	elems := map[ssa.Value][]c01Val{} // array alloc or slice value -> elements (shared backing)
+	type cell struct {
+		cont ssa.Value
+		idx  int64
+	}
+	cells := map[ssa.Value]cell{} // IndexAddr -> element
 	var run func(b, pred *ssa.BasicBlock, vals map[ssa.Value]c01Val, depth int)
 	run = func(b, pred *ssa.BasicBlock, vals map[ssa.Value]c01Val, depth int) {
 		for {
 			budget--
-			if budget < 0 || depth > 40 {
+			if budget < 0 || depth > 900 {
 				ok = false
 				return
 			}
@@ -333,6 +340,14 @@ func c01EvalD(fn *ssa.Function, env c01Env, callDepth int) (rets [][]c01Val, ok 
 						}
 					}
 					if x.Op == token.MUL {
+						if c, ok := cells[x.X]; ok {
+							vals[x] = elems[c.cont][c.idx]
+						}
+						if gl, ok := x.X.(*ssa.Global); ok {
+							if tbl, ok := c01SliceTable(fn, gl); ok {
+								elems[x] = tbl
+							}
+						}
 						if fa, ok := x.X.(*ssa.FieldAddr); ok && isRecvBase(fa.X) {
 							if k, ok := env.Fields[fieldIDOfAddr(fa).Field]; ok {
 								vals[x] = c01Val{K: k}
@@ -346,6 +361,36 @@ func c01EvalD(fn *ssa.Function, env c01Env, callDepth int) (rets [][]c01Val, ok 
 						}
 					}
 				case *ssa.Call:
+					if builtinName(x) == "len" && len(x.Call.Args) == 1 {
+						if es, ok := elems[x.Call.Args[0]]; ok {
+							vals[x] = c01Val{K: constant.MakeInt64(int64(len(es)))}
+						}
+						break
+					}
+					if obj := calleeObj(x); obj != nil && obj.Pkg() != nil && obj.Pkg().Path() == "slices" && (obj.Name() == "Contains" || obj.Name() == "Index") && len(x.Call.Args) == 2 {
+						es, ok := elems[x.Call.Args[0]]
+						k := get(x.Call.Args[1])
+						if ok && k.known() {
+							idx, allKnown := int64(-1), true
+							for i, e := range es {
+								if !e.known() {
+									allKnown = false
+									break
+								}
+								if idx < 0 && e.K.Kind() == k.K.Kind() && constant.Compare(e.K, token.EQL, k.K) {
+									idx = int64(i)
+								}
+							}
+							if allKnown {
+								if obj.Name() == "Contains" {
+									vals[x] = c01Val{K: constant.MakeBool(idx >= 0)}
+								} else {
+									vals[x] = c01Val{K: constant.MakeInt64(idx)}
+								}
+							}
+						}
+						break
+					}
 					// pure table helpers of the same package, all arguments constant
 					callee := staticCallee(x)
 					if callee == nil || callee.Pkg != fn.Pkg || len(callee.Blocks) == 0 || callDepth >= 3 || len(callee.Params) != len(x.Call.Args) {
@@ -387,6 +432,31 @@ func c01EvalD(fn *ssa.Function, env c01Env, callDepth int) (rets [][]c01Val, ok 
 				case *ssa.Extract:
 					if t, ok := tuples[x.Tuple]; ok && x.Index < len(t) {
 						vals[x] = t[x.Index]
+					}
+				case *ssa.Alloc:
+					if arr, ok := deref(x.Type()).Underlying().(*types.Array); ok && arr.Len() <= 64 {
+						elems[x] = make([]c01Val, arr.Len())
+						for i := range elems[x] {
+							elems[x][i] = c01Val{Src: x}
+						}
+					}
+				case *ssa.Slice:
+					if es, ok := elems[x.X]; ok && x.Low == nil && x.High == nil {
+						elems[x] = es
+					}
+				case *ssa.IndexAddr:
+					if es, ok := elems[x.X]; ok {
+						if k := get(x.Index); k.known() && k.K.Kind() == constant.Int {
+							if i, ok := constant.Int64Val(k.K); ok && i >= 0 && i < int64(len(es)) {
+								cells[x] = cell{x.X, i}
+							}
+						}
+					} else {
+						delete(cells, x)
+					}
+				case *ssa.Store:
+					if c, ok := cells[x.Addr]; ok {
+						elems[c.cont][c.idx] = get(x.Val)
 					}
 				case *ssa.Lookup:
 					// lookup in a package-level map table initialised with constants and never written elsewhere
@@ -871,4 +941,75 @@ func c01ZeroConst(t types.Type, commaOk bool) constant.Value {
 		return constant.MakeBool(false)
 	}
 	return nil
+}
+
+// c01SliceTable: gl is a package-level slice variable of fn's package whose only store is, in the package
+// initialiser, a slice literal of constants.
+func c01SliceTable(fn *ssa.Function, gl *ssa.Global) ([]c01Val, bool) {
+	if gl.Pkg == nil || fn.Pkg == nil || gl.Pkg != fn.Pkg {
+		return nil, false
+	}
+	var lit ssa.Value
+	stores := 0
+	for _, mem := range gl.Pkg.Members {
+		f, ok := mem.(*ssa.Function)
+		if !ok {
+			continue
+		}
+		for _, ff := range append([]*ssa.Function{f}, f.AnonFuncs...) {
+			allInstrs(ff, func(in ssa.Instruction) {
+				if st, ok := in.(*ssa.Store); ok && st.Addr == ssa.Value(gl) {
+					stores++
+					if ff.Name() == "init" {
+						lit = st.Val
+					}
+				}
+				// element writes through the variable elsewhere
+				if ia, ok := in.(*ssa.IndexAddr); ok && ff.Name() != "init" {
+					if lu, ok := ia.X.(*ssa.UnOp); ok && lu.X == ssa.Value(gl) {
+						for _, w := range refs(ia) {
+							if _, isSt := w.(*ssa.Store); isSt {
+								stores += 100
+							}
+						}
+					}
+				}
+			})
+		}
+	}
+	sl, ok := lit.(*ssa.Slice)
+	if stores != 1 || !ok || sl.Low != nil || sl.High != nil {
+		return nil, false
+	}
+	al, ok := sl.X.(*ssa.Alloc)
+	if !ok {
+		return nil, false
+	}
+	arr, ok := deref(al.Type()).Underlying().(*types.Array)
+	if !ok || arr.Len() > 64 {
+		return nil, false
+	}
+	out := make([]c01Val, arr.Len())
+	set := 0
+	for _, u := range refs(al) {
+		ia, ok := u.(*ssa.IndexAddr)
+		if !ok {
+			continue
+		}
+		k, ok := c01ConstInt(ia.Index)
+		if !ok || k < 0 || k >= arr.Len() {
+			return nil, false
+		}
+		for _, w := range refs(ia) {
+			if st, ok := w.(*ssa.Store); ok {
+				c, ok := st.Val.(*ssa.Const)
+				if !ok || c.Value == nil {
+					return nil, false
+				}
+				out[k] = c01Val{K: c.Value}
+				set++
+			}
+		}
+	}
+	return out, int64(set) == arr.Len()
 }
